@@ -105,7 +105,7 @@ func c08Run1(w *lib.Worker, c c08case, report bool) []lib.Violation {
 			edges[id] = append(edges[id], tid)
 		}
 		var err error
-		if c.Variant == "rule-a" && n == "a" {
+		if (c.Variant == "rule-a" || c.Variant == "rule-a-updated") && n == "a" {
 			r := lib.JM(`{"when":{"pattern":{"e":"?e"}},"action":{"code":"1"}}`)
 			if dw != nil {
 				r["deleteWith"] = dw
@@ -136,6 +136,21 @@ func c08Run1(w *lib.Worker, c c08case, report bool) []lib.Violation {
 			return vs
 		}
 		live[id] = true
+	}
+	if c.Variant == "rule-a-updated" {
+		// updating a rule is not a deletion: its dependents must stay
+		r := lib.JM(`{"when":{"pattern":{"e":"?e"}},"action":{"code":"2"}}`)
+		if dw := edges["a"]; len(dw) > 0 {
+			xs := make([]interface{}, len(dw))
+			for i, t := range dw {
+				xs[i] = t
+			}
+			r["deleteWith"] = xs
+		}
+		if _, err := loc.AddRule(ctx, "a", core.Map(r)); err != nil {
+			vs = append(vs, lib.Violation{Scenario: "setup", Signature: "C08/" + c.Kind + "/rule-update-failed", Summary: err.Error(), Replay: c})
+			return vs
+		}
 	}
 	if c.Variant == "prop-b" || c.Variant == "idnamed-a" {
 		if err := loc.SetProp(ctx, "b", "color", "red"); err != nil {
@@ -232,7 +247,7 @@ func c08Run1(w *lib.Worker, c c08case, report bool) []lib.Violation {
 }
 
 func c08Run(w *lib.Worker) {
-	variants := []string{"facts", "rule-a", "prop-b", "qmark-a", "expiry-a", "overwrite-c", "idnamed-a"}
+	variants := []string{"facts", "rule-a", "prop-b", "qmark-a", "expiry-a", "overwrite-c", "idnamed-a", "rule-a-updated"}
 	delSeqs := [][]string{{"a"}, {"b"}, {"c"}, {"a", "b"}, {"a", "c"}, {"b", "a"}, {"b", "c"}, {"c", "a"}, {"c", "b"}}
 	step := 1
 	if w.Tier == "quick" {
@@ -284,7 +299,7 @@ func init() {
 	lib.Register(&lib.Check{
 		ID:    "C08",
 		Level: "model_checking",
-		Rule: "all 4096 deleteWith graphs over nodes {a,b,c} (targets a,b,c and a dangling zz) x 7 variants (facts; a is a rule; b has a property fact; a's id is \"?q\"; a expires; c overwritten after first depending on a and b; a's id is \"id\" with a property on b), every node also mentioning another node's id outside deleteWith, x 9 deletion sequences of 1-2 live nodes x {indexed, linear (x iteration orders of its fact map)}; oracle = reverse-reachability closure, observed through GetFact, SearchFacts and storage; " +
+		Rule: "all 4096 deleteWith graphs over nodes {a,b,c} (targets a,b,c and a dangling zz) x 8 variants (facts; a is a rule; a is a rule that is updated once after the graph is built; b has a property fact; a's id is \"?q\"; a expires; c overwritten after first depending on a and b; a's id is \"id\" with a property on b), every node also mentioning another node's id outside deleteWith, x 9 deletion sequences of 1-2 live nodes x {indexed, linear (x iteration orders of its fact map)}; oracle = reverse-reachability closure, observed through GetFact, SearchFacts and storage; " +
 			"states = graphs, transitions = deletions executed; non-trivial = distinct cases in which at least one dependent had to be deleted and the outcome matched",
 		Assumptions: []string{
 			"deleting an id that is not live (never existed or already deleted) is left unspecified and not explored",
